@@ -361,6 +361,79 @@ func runC17(w *World, r *Report) {
 		}
 	}
 
+	// a list helper does not build its result inside the list it is still reading (bytes.Split returns sub-slices of its
+	// argument: writing into a reslice of that argument rewrites the parts not yet visited)
+	r.rule("list-rebuilt-outside-its-input", "in the cache package no function appends into, or stores through, a reslice of a []byte parameter that it also splits and walks (the in-place filter overwrites entries it has not read yet when a separator is put in front)", 0)
+	nSplit := 0
+	for _, fn := range fns {
+		for _, prm := range fn.Params {
+			if st, ok := prm.Type().Underlying().(*types.Slice); !ok || !isByte(st.Elem()) {
+				continue
+			}
+			split := false
+			for _, ref := range *prm.Referrers() {
+				if c, ok := ref.(*ssa.Call); ok {
+					n := calleeName(c)
+					if strings.HasPrefix(n, "bytes.Split") || strings.HasPrefix(n, "bytes.Fields") || strings.HasPrefix(n, "bytes.Cut") {
+						split = true
+					}
+				}
+			}
+			if !split {
+				continue
+			}
+			nSplit++
+			var at ssa.Instruction
+			for _, ref := range *prm.Referrers() {
+				sl, ok := ref.(*ssa.Slice)
+				if !ok || sl.X != ssa.Value(prm) {
+					continue
+				}
+				seen := map[ssa.Value]bool{}
+				var follow func(v ssa.Value)
+				follow = func(v ssa.Value) {
+					if v == nil || seen[v] || at != nil {
+						return
+					}
+					seen[v] = true
+					for _, r2 := range *v.Referrers() {
+						switch x := r2.(type) {
+						case *ssa.Phi:
+							follow(x)
+						case *ssa.Slice:
+							follow(x)
+						case *ssa.Call:
+							if b, ok := x.Call.Value.(*ssa.Builtin); ok && b.Name() == "append" && len(x.Call.Args) > 0 && x.Call.Args[0] == v {
+								at = x
+								return
+							}
+							if b, ok := x.Call.Value.(*ssa.Builtin); ok && b.Name() == "copy" && len(x.Call.Args) > 0 && x.Call.Args[0] == v {
+								at = x
+								return
+							}
+						case *ssa.IndexAddr:
+							for _, r3 := range *x.Referrers() {
+								if stx, ok := r3.(*ssa.Store); ok && stx.Addr == ssa.Value(x) {
+									at = stx
+									return
+								}
+							}
+						}
+					}
+				}
+				follow(sl)
+			}
+			why := ""
+			if at != nil {
+				why = fmt.Sprintf("%s splits %s and walks the parts while it writes into a reslice of %s at %s", shortFn(fn), prm.Name(), prm.Name(), lineOf(w, at))
+			}
+			r.check(at == nil, "list-rebuilt-outside-its-input", shortFn(fn)+"/"+prm.Name(), w.Pos(fn.Pos()), "the result is built in storage of its own", why)
+		}
+	}
+	if nSplit == 0 {
+		r.ok("list-rebuilt-outside-its-input", "none", "-", "no function splits a byte-slice parameter")
+	}
+
 	// the awaiting index owns its key space: nothing else in the cache writes under an index key
 	r.rule("index-keys-private", "every write to the cache under a key built by encodeAddressKey / encodeTrxKey sits in the awaiting-index functions, and those functions write under no other keys (the balance entries share the cache: a shared key would let one clobber the other)", 6)
 	indexFns := map[string]bool{"SaveAwaitedTransaction": true, "RemoveAwaitedTransaction": true, "ReadTransactions": true}
@@ -501,4 +574,10 @@ func loopCarried(v ssa.Value, at *ssa.BasicBlock, seen map[ssa.Value]bool, d int
 		}
 	}
 	return ""
+}
+
+
+func isByte(t types.Type) bool {
+	b, ok := t.Underlying().(*types.Basic)
+	return ok && b.Kind() == types.Uint8
 }
